@@ -101,6 +101,34 @@ def check_table(df, m, labels, status, iterations, include_internal, tag):
     return out
 
 
+def export_is_a_copy(m, export, tag):
+    """The table holds the values the series had when it was made: later writes to the model do not reach it, writes to it do not reach the model."""
+    out = []
+    df = export()
+    frozen = {c: df[c].tolist() for c in df.columns}
+    stored = {c: vars(m)['_' + c].copy() for c in df.columns}
+    for c in df.columns:
+        a = vars(m)['_' + c]
+        a[0] = {'f': -12345.5, 'i': -12345, 'u': 201, 'b': not bool(a[0]), 'U': 'zz'}.get(a.dtype.kind, a[0])
+    changed = [c for c in df.columns if not all(_eq(x, y) for x, y in zip(df[c].tolist(), frozen[c]))]
+    if changed:
+        out.append(('%s:table-follows-model' % tag, 'an exported table keeps its values', changed[:3], 'writing to the model afterwards changed a table exported earlier'))
+        return out
+    for c in df.columns:
+        vars(m)['_' + c][:] = stored[c]
+    df2 = export()
+    try:
+        for j, c in enumerate(df2.columns):
+            if df2[c].dtype.kind in 'fiu':
+                df2.iloc[0, j] = 77
+    except Exception:
+        return out
+    touched = [c for c in df2.columns if vars(m)['_' + c].tobytes() != stored[c].tobytes()]
+    if touched:
+        out.append(('%s:model-follows-table' % tag, 'the model keeps its values', touched[:3], 'editing an exported table in place changed the model'))
+    return out
+
+
 def _eq(x, y):
     if isinstance(x, float) and isinstance(y, float) and x != x and y != y:
         return True
@@ -116,6 +144,9 @@ def run_model_case(case):
     df2 = tools.model_to_dataframe(m, status=status, iterations=iterations, include_internal=internal)
     out += check_table(df1, m, labels, status, iterations, internal, 'to_dataframe')
     out += check_table(df2, m, labels, status, iterations, internal, 'model_to_dataframe')
+    if out:
+        return out
+    out += export_is_a_copy(m, lambda: m.to_dataframe(status=status, iterations=iterations, include_internal=internal), 'to_dataframe')
     if out:
         return out
     # round trip through from_dataframe using the data columns of the class's own variables
@@ -188,24 +219,26 @@ def run_linker_case(case):
     status, iterations, internal = case['flags']
     subs = {}
     lab = None
+    ids = {'str': ['sub0', 'sub1'], 'int': [7, 0], 'tuple': [('DE', 1), ('FR', 2)], 'mixed': [0, 'b']}[case.get('ids', 'str')]
+    core = {'str': 'core', 'int': -1, 'tuple': ('world',), 'mixed': None}[case.get('ids', 'str')]   # submodel ids and the linker's name are any hashables
     for j in range(nsub):
         m, lab = make_model(j, kind, n, False)
-        subs['sub%d' % j] = m
+        subs[ids[j]] = m
     if nsub == 0:
-        lk = LkX({}, name='core')
+        lk = LkX({}, name=core)
         lab = []
     else:
-        lk = LkX(subs, name='core', L=2.5)
+        lk = LkX(subs, name=core, L=2.5)
         if case['solved']:
             lk.solve(max_iter=3, failures='ignore')
     out = []
     dfs = lk.to_dataframes(status=status, iterations=iterations, include_internal=internal)
     dfs2 = tools.linker_to_dataframes(lk, status=status, iterations=iterations, include_internal=internal)
     for tag, d in (('to_dataframes', dfs), ('linker_to_dataframes', dfs2)):
-        if list(d.keys()) != ['core'] + list(subs):
-            out.append(('linker:%s:keys' % tag, ['core'] + list(subs), list(d.keys()), 'one table for the linker and one per submodel'))
+        if list(d.keys()) != [core] + list(subs):
+            out.append(('linker:%s:keys' % tag, [core] + list(subs), list(d.keys()), 'one table for the linker and one per submodel'))
             return out
-        out += check_table(d['core'], lk, list(lk.span), status, iterations, internal, 'linker:' + tag)
+        out += check_table(d[core], lk, list(lk.span), status, iterations, internal, 'linker:' + tag)
         for k, sub in subs.items():
             out += check_table(d[k], sub, lab, status, iterations, internal, 'linker-sub:' + tag)
     one = lk.to_dataframe(status=status, iterations=iterations, include_internal=internal)
@@ -223,8 +256,6 @@ def run_symbols_case(case):
     try:
         back = tools.dataframe_to_symbols(tools.symbols_to_dataframe(syms))
     except Exception as e:
-        if not syms:
-            return [], False  # an empty table has no columns to read back; nothing to round-trip
         return [('symbols:exception:%s' % type(e).__name__, 'round trip', repr(e)[:200], 'symbol round trip raised')], True
     if back != syms:
         bad = [(a, b) for a, b in zip(syms, back) if a != b][:1]
@@ -242,7 +273,7 @@ def run_symbols_case(case):
                 if type(getattr(a, f)) is not type(getattr(b, f)) and not (isinstance(getattr(a, f), int) and isinstance(getattr(b, f), int)):
                     out.append(('symbols:types:%s' % f, type(getattr(a, f)).__name__, type(getattr(b, f)).__name__, 'field type changed in the round trip'))
                     return out, True
-    return out, bool(syms)
+    return out, True
 
 
 FLAGS = list(itertools.product((True, False), repeat=3))
@@ -292,11 +323,12 @@ def run_block(block, tier, seed):
             for kind in ('range', 'list_str', 'list_mixed', 'tuple_int'):  # BaseLinker compares submodel spans with !=, which pandas/NumPy spans do not support
                 for solved in (False, True):
                     for flags in FLAGS:
-                        case = dict(kind='linker', nsub=nsub, span=kind, n=4, solved=solved, flags=list(flags))
-                        acc.evaluations += 1
-                        acc.nontrivial += 1
-                        for key, exp, obs, what in guarded(run_linker_case, case):
-                            acc.violation(key, case, exp, obs, what)
+                        for ids in (('str', 'int', 'tuple', 'mixed') if kind == 'range' else ('str',)):
+                            case = dict(kind='linker', nsub=nsub, span=kind, n=4, solved=solved, flags=list(flags), ids=ids)
+                            acc.evaluations += 1
+                            acc.nontrivial += 1
+                            for key, exp, obs, what in guarded(run_linker_case, case):
+                                acc.violation(key, case, exp, obs, what)
     else:
         scripts = programs.catalogue(tier)
         for script in scripts[block['lo']:block['hi']]:
